@@ -63,8 +63,9 @@ def make_rule(rng, spec, kind, sim=False):
             u = rng.choice(SI.units('Time'))
             return {'type': 'const', 'start': GEN.Q('Time', float(rng.randint(0, 50)), u), 'dur': GEN.Q('TimeInterval', float(rng.randint(1, 50)), u),
                     'value': rng.choice([-1, -0.5, 0, 0.25, 0.5, 1]), 'exact': True}
-        return {'type': 'const', 'start': to_unit(rng, GEN.Q('Time', GEN.mulq(dt0, t0)['v'] if t0 else 0.0, dt0['u'])),
-                'dur': to_unit(rng, GEN.mulq(dt0, d)), 'value': rng.choice([-1, -0.5, 0, 0.25, 0.5, 1, GEN.sig(rng.uniform(-1, 1), 3)])}
+        oku = GEN.time_units_for(GEN.qsi(dt0))      # time values stay >= 1e-6 in their unit (outside defect D9's absolute-tolerance zone)
+        return {'type': 'const', 'start': GEN.reexpress(GEN.Q('Time', GEN.mulq(dt0, t0)['v'] if t0 else 0.0, dt0['u']), rng.choice(oku)),
+                'dur': GEN.reexpress(GEN.mulq(dt0, d), rng.choice(oku)), 'value': rng.choice([-1, -0.5, 0, 0.25, 0.5, 1, GEN.sig(rng.uniform(-1, 1), 3)])}
     if kind == 'reach':
         tgt = (pos0 + rng.uniform(0.3, 1.0) * travel) * g_enc
         return {'type': 'reach', 'enc': enc, 'target': to_unit(rng, GEN.Q('AngularPosition', GEN.sig(tgt, 6), 'rad')),
@@ -252,7 +253,7 @@ def direct(ctx, i, rng, case):
                 th_last = bnd + rng.uniform(-0.1, 0.1) * max(abs(bnd), abs(ref['w_out'] * ref['dt_si'] * ref['n']))
         if mode in (0, 1, 2):
             ctx.count('boundary_states')
-        tu = rng.choice(SI.units('Time'))
+        tu = rng.choice(GEN.time_units_for(ref['dt_si']))
         t_raw = None
         if kind == 'const' and r.get('exact') and mode in (0, 1, 3):
             tu = r['start']['u']
